@@ -44,8 +44,8 @@ var c07Reviewed = []reviewedEntry{
 	{"trimLeadWS", "s[i:]", "i is a range index of s", ""},
 	{"trimLeadWS", "tabOfWS[:wsCount - trimLen]", "wsCount first reaches trimLen by a step of at most 8", ""},
 	{"trimLeadWS", "s[i + 1:]", "i is the index of a one-byte blank", ""},
-	{"trimWhitespace", "str[len(str) - 1]", "guarded by len(str) == 0 ⇒ continue", "lenguard"},
-	{"trimWhitespace", "str[:len(str) - cr]", "cr is 1 only when the last byte is CR, so len(str) ≥ cr", ""},
+	{"trimWhitespace", "str[len(str) - 1]", "guarded by len(str) > 0 && … in the same condition", "lenguard"},
+	{"trimWhitespace", "str[:len(str) - cr]", "cr is 1 only when the last byte is CR (set under len(str) > 0), so len(str) ≥ cr; R08.9 shows cr is not carried over from another line", ""},
 	{"trimWhitespace", "lineBreaks[cr]", "cr is 0 or 1", ""},
 	// nodes and arguments
 	{"IdArg.Parse", "str[:3]", "guarded by len(str) >= 3", "lenguard"},
@@ -95,6 +95,11 @@ func checkC07(w *World, r *Report) {
 	r.guard("R07.5", func() {
 		scanPanicObligationsOpt(w, r, "R07.5", parseCone(w), c07Reviewed, true, true, "reachable from parse.Parse", "a crafted text may crash the parser (a panic in the lexer goroutine cannot even be recovered)")
 	})
+
+	r.Rule("R07.7", "lexer position invariant 0 <= start <= pos <= len(input): every write to lexer.pos/start/width/input is one of the invariant-preserving forms (advance by a decoded width, by Index result + c with c <= len(needle) on the found path, to the end of the input, over a prefix lexStmt matched; retreat by width; start = pos)", 10)
+	r.guard("R07.7", func() { c07PosInvariant(w, r) })
+	r.Rule("R07.8", "backup() undoes exactly one next(): on every path a backup() call is preceded by next() with no emit/ignore/peek/accept/backup in between", 4)
+	r.guard("R07.8", func() { c07BackupDiscipline(w, r) })
 
 	r.Rule("R07.6", "a nil error comes with a root: the success return of Tree.Parse follows parse(), which assigns Root from stmt(), and stmt returns the node it built", 3)
 	r.guard("R07.6", func() { c07Root(w, r) })
